@@ -127,12 +127,12 @@ Section Ops.
     step names s (fst (sys_symlink t s names))
     /\ (snd (sys_symlink t s names) = None -> fs_get (fs (fst (sys_symlink t s names))) (K names) = Some (NLink t)).
   Proof.
-    intros HP. unfold sys_symlink. start s HP.
+    intros HP. unfold sys_symlink.
+    destruct (is_nil t); [cbn [fst snd]; split; [apply step_refl | discriminate]|].
+    start s HP.
     destruct (fs_get (fs s) (K names)) eqn:E; cbn [fst snd fs set_fs log].
     - split; [apply step_log | discriminate].
-    - destruct (is_nil t); cbn [fst snd fs set_fs log].
-      + split; [apply step_log | discriminate].
-      + split; [apply step_log_set, frame_set|]. intros _. rewrite fs_get_set, path_eqb_refl. reflexivity.
+    - split; [apply step_log_set, frame_set|]. intros _. rewrite fs_get_set, path_eqb_refl. reflexivity.
   Qed.
 
   Lemma sys_write_spec excl x0 c s : pre_ok names s ->
